@@ -42,10 +42,30 @@ static void zh_fault_env(void) {
 }
 static void zh_fault_reset(void) { zh_count[0] = zh_count[1] = zh_count[2] = 0; zh_fired = 0; }
 
+/* a second fault of a run (environment ZH_FAULT2, same syntax; used for the tools, whose only interface is the
+   environment): when its call comes up, its kind and count stand in for the first one's */
+static int zh2_op = -1, zh2_kind = 0, zh1_kind = 0, zh2_init = 0; static long zh2_k = 0, zh2_short = 1, zh1_short = 1;
+static void zh_fault2_env(void) {
+    zh2_init = 1; zh1_kind = zh_fault_kind; zh1_short = zh_fault_short;
+    const char *e = getenv("ZH_FAULT2");
+    if(!e) return;
+    char op[16], kind[16]; long k, sh = 1;
+    if(sscanf(e, "%15[^:]:%ld:%15[^:]:%ld", op, &k, kind, &sh) < 3) return;
+    zh2_op = !strcmp(op, "read") ? 0 : !strcmp(op, "write") ? 1 : 2;
+    zh2_k = k; zh2_short = sh;
+    zh2_kind = !strcmp(kind, "eio") ? 1 : !strcmp(kind, "enospc") ? 2 : !strcmp(kind, "eintr") ? 3 : 4;
+}
+
 static int zh_hit(int op, int fd) {
     if(!zh_armed || fd <= 2) return 0;
+    if(!zh2_init) zh_fault2_env();
     zh_count[op]++;
-    if(op == zh_fault_op && zh_count[op] == zh_fault_k) { zh_fired = 1; return 1; }
+    if(op == zh_fault_op && zh_count[op] == zh_fault_k) {
+        zh_fired = 1;
+        if(zh2_op >= 0) { zh_fault_kind = zh1_kind; zh_fault_short = zh1_short; }
+        return 1;
+    }
+    if(zh2_op >= 0 && op == zh2_op && zh_count[op] == zh2_k) { zh_fired = 1; zh_fault_kind = zh2_kind; zh_fault_short = zh2_short; return 1; }
     return 0;
 }
 static int zh_errno_of(void) { return zh_fault_kind == 1 ? EIO : zh_fault_kind == 2 ? ENOSPC : EINTR; }
